@@ -139,6 +139,13 @@ def perform(cid, root, op):
         _apply(a, b)
     global PREFIX
     PREFIX = len(EFFECTS)
+    if op.get('fsize'):
+        # the KERNEL kills this process (SIGXFSZ) when a write would grow a file beyond the limit: a crash point inside the
+        # library's / sqlite's own write calls, which no Python-level primitive brackets
+        import resource
+        import signal
+        signal.signal(signal.SIGXFSZ, signal.SIG_DFL)
+        resource.setrlimit(resource.RLIMIT_FSIZE, (op['fsize'], op['fsize']))
     _apply(a, op)
 
 
@@ -148,7 +155,7 @@ PREFIX = 0
 def _apply(a, op):
     kind = op['op']
     if kind == 'set':
-        a[_key(op['key'])] = op['value']
+        a[_key(op['key'])] = op['value'] * op.get('repeat', 1)
     elif kind == 'setdefault':
         a.setdefault(_key(op['key']), op['value'])
     elif kind == 'update':
